@@ -31,7 +31,7 @@ theorem remove_appends_tombstone (key : Bytes) (b0 : Bytes) (fs : FS)
     (hr : (run env (insert cfg cache key {}) fs).1 = .ok s) :
     ∃ tm, (run env (insert cfg cache key {}) fs).2.1.get (bucketPath cfg cache key) =
       some (.file (b0 ++ (codec cfg).frame (mkRec key {} tm))) := by
-  obtain ⟨tm, _, h⟩ := (wpD_run (insert_bucket_wp cfg env cache key {} b0 hb)).2 s hr
+  obtain ⟨tm, _, h, _⟩ := (wpD_run (insert_bucket_wp cfg env cache key {} b0 hb)).2 s hr
   exact ⟨tm, h⟩
 
 /-- … after which the key — and only that key — is not found. -/
